@@ -24,6 +24,7 @@ type c06QuicPlan struct {
 	SCID      []byte
 	Hello     []byte
 	Want      string
+	NoExt     bool // the hello has no extension block (shape of finding F-C06-4)
 	Datagrams [][]byte
 	// per datagram: CRYPTO ranges carried by its intact Initial packets
 	Ranges    [][][2]int
@@ -77,7 +78,7 @@ func c06GenQuicPlan(t *rapid.T) *c06QuicPlan {
 		p.Classes = append(p.Classes, "quic:hello_from_crypto_tls")
 	} else {
 		h := c06GenHello(t, true)
-		p.Hello, p.Want = h.HS, h.Want
+		p.Hello, p.Want, p.NoExt = h.HS, h.Want, h.NoExt
 		p.Classes = append(p.Classes, h.Classes...)
 	}
 	n := len(p.Hello)
